@@ -250,6 +250,20 @@ func runCheck(prop, tier string, noReplay bool) int {
 			inconc = append(inconc, j.Name+": VACUOUS (no path completed)")
 		}
 	}
+	// vacuity: every assertion site this job reached on the reference run must be reached again
+	// (a site that silently becomes unreachable would otherwise pass everything)
+	if exp := loadExpectedSites(); exp != nil {
+		for _, j := range jobs {
+			for _, id := range exp[j.Name] {
+				if _, ok := j.Asserts[id]; !ok {
+					if _, cut := j.Inconclusive["exploration time budget exhausted with paths left unexplored"]; cut {
+						continue
+					}
+					inconc = append(inconc, fmt.Sprintf("%s: VACUOUS: assertion site %q was not reached (it is on the reference run)", j.Name, id))
+				}
+			}
+		}
+	}
 	sort.Strings(inconc)
 	if len(inconc) > 0 && exit == 0 {
 		exit = 2
@@ -344,9 +358,14 @@ func runCheck(prop, tier string, noReplay bool) int {
 		"wall_s":      time.Since(t0).Seconds(),
 		"violations":  nViol,
 	}
-	os.MkdirAll(filepath.Join(gCfg.Verif, "evidence"), 0o755)
+	evDir := filepath.Join(gCfg.Verif, "evidence")
+	if abs, err := filepath.Abs(gCfg.Repo); err == nil && abs != "/repo" {
+		// a run against a scratch copy (seeded change) never overwrites the evidence of /repo
+		evDir = filepath.Join(os.TempDir(), "bsym-evidence-"+filepath.Base(abs))
+	}
+	os.MkdirAll(evDir, 0o755)
 	b, _ := json.MarshalIndent(ev, "", " ")
-	if err := os.WriteFile(filepath.Join(gCfg.Verif, "evidence", prop+".json"), b, 0o644); err != nil {
+	if err := os.WriteFile(filepath.Join(evDir, prop+".json"), b, 0o644); err != nil {
 		fmt.Fprintln(os.Stderr, "ENGINE-ERROR: evidence:", err)
 		return 2
 	}
@@ -367,4 +386,16 @@ func runSelftests(e *Engine, specs []JobSpec) (bool, int, string) {
 		return true, 0, "none registered for this property"
 	}
 	return runSelftestJobs(e, specs)
+}
+
+func loadExpectedSites() map[string][]string {
+	b, err := os.ReadFile(filepath.Join(gCfg.Verif, "harness", "expected_sites.json"))
+	if err != nil {
+		return nil
+	}
+	m := map[string][]string{}
+	if json.Unmarshal(b, &m) != nil {
+		return nil
+	}
+	return m
 }
